@@ -1,6 +1,7 @@
 /-
-  Assembly of C16 / C09, part 12: no sub-daily filler ever writes an all-day instant, so what they write satisfies
-  `KindOk` whatever the rule (`fill_kind_all`: `KindOk` is handed on from seed to seed for every frequency).
+  Assembly of C16 / C09, part 12: no sub-daily filler ever writes an all-day instant, so whatever the frequency an
+  all-day instant comes from an all-day seed only (`fill_allDay_of_seed`), and what is written satisfies
+  `KindOk` if the seed does (`fill_kind_all`; `KindOk` is no proviso of the filler or stream theorems any more).
 -/
 import Echse.Lemmas.RrAsm11
 import Echse.Lemmas.RrAsm7
@@ -89,6 +90,25 @@ theorem fillSly_hlt (r : Rule) (p : Inst) (n : Nat) (l : List Inst) (hp : WfInst
 
 theorem kindOk_of_hlt (r : Rule) (x : Inst) (h : x.H < 24) : KindOk r x :=
   KindOk.of_timed r x (by unfold allDay; omega)
+
+/-- whatever the frequency, a filler writes an all-day instant only when its seed is one -/
+theorem fill_allDay_of_seed (r : Rule) (p : Inst) (n : Nat) (l : List Inst) (hr : WfRule r) (hp : WfInst p)
+    (h : fill r p n = some l) : ∀ x ∈ l, x.H = allDay → p.H = allDay := by
+  intro x hx hall
+  by_cases hf : r.freq ≤ 4
+  · exact (fill_same_kind r p n l hr hp hf h x hx).1 hall
+  · have hlt : x.H < 24 := by
+      unfold fill at h
+      split at h
+      · omega
+      · omega
+      · omega
+      · omega
+      · exact fillHly_hlt r p n l hp h x hx
+      · exact fillMnly_hlt r p n l hp h x hx
+      · exact fillSly_hlt r p n l hp h x hx
+      · cases h; cases hx
+    unfold allDay at hall; omega
 
 /-- whatever the frequency, what a filler writes has the kind of its seed: `KindOk` goes from seed to seed -/
 theorem fill_kind_all (r : Rule) (p : Inst) (n : Nat) (l : List Inst) (hr : WfRule r) (hp : WfInst p) (hk : KindOk r p)
